@@ -1232,6 +1232,22 @@ class Sym:
                         it = unmut(ps[2][0])
                         if it[0] == "call" and short(it[1]) in ("<impl [T]>::iter", "Vec::<T, A>::iter") and self.name(it[2][0]) == self.name(t[2][0]):
                             return "Option::<T>::unwrap(Iterator::find(%s,%s))" % (self.arg_name(ps[2][0]), self.arg_name(ps[2][1]))
+            if short(t[1]) in ("Index::index", "IndexMut::index_mut") and len(t[2]) == 2:
+                rg_ = strip(t[2][1])
+                if rg_[0] == "aggr" and rg_[1].endswith("RangeFull::RangeFull"):
+                    return self.name(t[2][0])             # `&v[..]` is the whole of v
+            if short(t[1]) in ("Result::<T, E>::map", "Option::<T>::map") and len(t[2]) == 2:
+                # `r.map(f)` on a path where r is a known Ok(v)/Err(e) (an expanded helper's result): Ok(f(v)) / Err(e)
+                in_ = self.name(t[2][0])
+                if in_.startswith("Err{") or in_ == "None{}":
+                    return in_
+                kp_ = self.known_payload(t[2][0])
+                if kp_ is not None and self.known_result(t[2][0]) in ("Ok", "Some"):
+                    from .terms import apply_closure
+                    cl_ = strip(t[2][1])
+                    ap_ = apply_closure(self.prog, cl_, (kp_,)) if cl_[0] == "aggr" else None
+                    if ap_ is not None:
+                        return "%s{%s}" % (self.known_result(t[2][0]), self.arg_name(ap_))
             if short(t[1]) in ("Option::<T>::unwrap", "Option::<T>::expect", "Result::<T, E>::unwrap", "Result::<T, E>::expect") and t[2]:
                 kp_ = self.known_payload(t[2][0])
                 if kp_ is not None:
